@@ -171,9 +171,17 @@ def _roundtrip(r, s, tier):
     fname = os.path.join(s, "c17_subs.txt")
     with open(fname, "w") as f:
         csv.writer(f, delimiter=";").writerows(rows)        # exactly how do_sympy / duplicate_checker write it
+    # a one-parameter file, read as the first thing a process does (the symbol table load_subs fills is shared process-wide state)
+    rows1 = [[e] for e in els if libproj.nparam(e) <= 1 and "a0" in e] + [[]]
+    single = [rw[0] for rw in rows1 if rw]
+    rows1 += [[rng.choice(single), rng.choice(single)] for _ in range(20)] if single else []
+    fname1 = os.path.join(s, "c17_subs1.txt")
+    with open(fname1, "w") as f:
+        csv.writer(f, delimiter=";").writerows(rows1)
     cases = []
-    for P in ([1, 3] if tier == "quick" else [1, 2, 3, 7]):
-        outp = os.path.join(s, "c17_loaded_P%d.json" % P)
+    allrows = rows
+    for P, fname, maxp, rows in [(P, fname, maxp, allrows) for P in ([1, 3] if tier == "quick" else [1, 2, 3, 7])] + [(P, fname1, 1, rows1) for P in ([1, 2] if tier == "quick" else [1, 2, 5])]:
+        outp = os.path.join(s, "c17_loaded_P%d_%d.json" % (P, maxp))
         res = coord.run_ranks(P, "harness.targets:load_subs_roundtrip", (fname, maxp, outp), s, timeout=1200)
         if res["status"] != "ok":
             bad = [k for k, c in res["exit"].items() if c not in (0, 86)]
